@@ -290,6 +290,10 @@ func (f *file) Write(p []byte) (n int, err error) {
 }
 
 func (f *file) WriteBlob(p blob.Blob) (n int, err error) {
+	if f.fileData != nil && f.flag&hackpadfs.FlagAppend != 0 && p.Len() > 0 {
+		// appending moves the file offset to the end of the file, like os.File
+		f.offset = int64(f.Size())
+	}
 	n, err = f.writeBlobAt("write", p, f.offset)
 	f.offset += int64(n)
 	return
